@@ -153,7 +153,7 @@ def main():
                 seen_kinds = set()
                 for cid1 in c1:
                     cfg1 = meta[cid1][1]
-                    mt = dict(kind="disagree", expected=STATUS[a0[0]], got=STATUS[a1[0]], entry=cfg1["entry"].split()[0])
+                    mt = dict(kind="disagree", expected=STATUS[a0[0]], got=STATUS[a1[0]], entry=cfg1["entry"].split()[0], numbers=lp.get("numbers", "small"))
                     if tuple(sorted(mt.items())) in seen_kinds:
                         continue
                     seen_kinds.add(tuple(sorted(mt.items())))
